@@ -19,6 +19,11 @@ if os.path.exists(os.environ.get("VERIF_BROKEN_FLAG", "/nonexistent/flag")):
     raise RuntimeError("vapp: broken release")
 
 
+if os.environ.get("VERIF_SOCK_TIMEOUT"):
+    import socket as _socket
+    _socket.setdefaulttimeout(float(os.environ["VERIF_SOCK_TIMEOUT"]))
+
+
 def ident():
     return ("pid=%d marker=%s ruid=%s rgid=%s groups=%s" % (
         os.getpid(), os.environ.get("VERIF_MARKER", "-"), ",".join(map(str, os.getresuid())),
@@ -32,6 +37,36 @@ def app(environ, start_response):
         body = ("SN=%s|PI=%s|QS=%s|RAW=%s|" % (environ.get("SCRIPT_NAME"), environ.get("PATH_INFO"), environ.get("QUERY_STRING"),
                                              environ.get("RAW_URI"))).encode("latin-1") + ident()
         start_response("200 OK", [("Content-Type", "text/plain"), ("Content-Length", str(len(body)))])
+        return [body]
+    if path == "/body":
+        # run a program of read / readline / readlines / next calls on wsgi.input and report what each returned
+        import json as _json
+        import zlib
+        prog = _json.loads(q.get("prog", ["[]"])[0])
+        inp = environ["wsgi.input"]
+        out = []
+        for op, n in prog:
+            try:
+                if op == "read":
+                    r = inp.read() if n is None else inp.read(n)
+                elif op == "readline":
+                    r = inp.readline() if n is None else inp.readline(n)
+                elif op == "next":
+                    try:
+                        r = next(inp)
+                    except StopIteration:
+                        r = b""
+                else:
+                    lines = inp.readlines() if n is None else inp.readlines(n)
+                    r = b"".join(lines)
+                    out.append({"len": len(r), "crc": zlib.crc32(r), "lines": [len(x) for x in lines]})
+                    continue
+                out.append({"len": len(r), "crc": zlib.crc32(r)})
+            except Exception as e:      # noqa
+                out.append({"raised": type(e).__name__})
+                break
+        body = _json.dumps(out).encode()
+        start_response("200 OK", [("Content-Type", "application/json"), ("Content-Length", str(len(body)))])
         return [body]
     if path == "/hid":
         # a response whose status line and header lines all carry the request's id, after some computing (so that handler
